@@ -1,4 +1,4 @@
-PROPS = ["CTV.Props.C14", "CTV.Props.C14Tie"]
+PROPS = ["CTV.Props.C14", "CTV.Props.C14Tie", "CTV.Model.ChainStoreSpec"]
 HARNESS = [dict(pkg="./trillian/ctfe/", test="TestVerifC14", race=True, timeout=1500),
            # one oversized chain (certificate_chain body above 2^24-1 bytes) through the real add-chain of both modes
            dict(pkg="./trillian/ctfe/", test="TestVerifC14Oversized", model=False),
